@@ -8,12 +8,13 @@ class CollectAnnotationLines(ast.NodeVisitor):
   """Collect line numbers of annotations to augment."""
 
   def __init__(self):
-    self.annotation_lines = []
+    # (0-based line, byte offset in that line) of the end of each annotation
+    self.annotation_ends = []
     self.in_function = False
 
   def visit_AnnAssign(self, node):
     if self.in_function and node.value is None:
-      self.annotation_lines.append(node.end_lineno - 1)  # change to 0-based
+      self.annotation_ends.append((node.end_lineno - 1, node.end_col_offset))
 
   def visit_FunctionDef(self, node):
     self.in_function = True
@@ -34,12 +35,13 @@ def augment_annotations(src):
     return src
   visitor = CollectAnnotationLines()
   visitor.visit(tree)
-  if visitor.annotation_lines:
+  if visitor.annotation_ends:
     lines = src.split("\n")
-    for i in visitor.annotation_lines:
-      # Preserve comments, as they may be pytype directives. We don't bother to
-      # keep the formatting, since users never see the transformed source code.
-      line, mark, comment = lines[i].partition("#")
-      lines[i] = line + " = ..." + mark + comment
+    # Insert the assignment right after the annotation, which need not be the
+    # last thing on its line (`x: int; y = 1`, `x: int  # comment`). Going
+    # backwards keeps the remaining offsets valid.
+    for i, col in sorted(visitor.annotation_ends, reverse=True):
+      line = lines[i].encode("utf-8")  # ast column offsets count bytes
+      lines[i] = (line[:col] + b" = ..." + line[col:]).decode("utf-8")
     src = "\n".join(lines)
   return src
